@@ -237,6 +237,12 @@ impl<'a> History<'a> {
 	/// blinding key. The offset (or the change of the offset made by this wallet, when the incoming slate's
 	/// offset is known to the counterparty) equal to +/- that key does: (+/-)x*G == public_blind_excess.
 	fn check_offset_leak(&mut self, wi: usize, what: &str, slate: &Slate, incoming_offset: Option<&grin_keychain::BlindingFactor>) {
+		self.check_offset_leak_with(wi, what, slate, incoming_offset, &[]);
+	}
+
+	/// `known`: public excesses of the flight's participants seen in its earlier slates (a final slate may no
+	/// longer carry them)
+	fn check_offset_leak_with(&mut self, wi: usize, what: &str, slate: &Slate, incoming_offset: Option<&grin_keychain::BlindingFactor>, known: &[grin_util::secp::key::PublicKey]) {
 		let secp = grin_util::static_secp_instance();
 		let secp = secp.lock();
 		let mut cands: Vec<(&str, grin_util::secp::key::SecretKey)> = vec![];
@@ -255,10 +261,10 @@ impl<'a> History<'a> {
 			let pos = grin_util::secp::key::PublicKey::from_secret_key(&secp, sk).ok();
 			let mut n = sk.clone();
 			let neg = if n.neg_assign(&secp).is_ok() { grin_util::secp::key::PublicKey::from_secret_key(&secp, &n).ok() } else { None };
-			for p in slate.participant_data.iter() {
-				if Some(p.public_blind_excess) == pos {
+			for pe in slate.participant_data.iter().map(|p| p.public_blind_excess).chain(known.iter().cloned()) {
+				if Some(pe) == pos {
 					hits.push(name.to_string());
-				} else if Some(p.public_blind_excess) == neg {
+				} else if Some(pe) == neg {
 					hits.push(format!("negated {}", name));
 				}
 			}
@@ -693,6 +699,9 @@ impl<'a> History<'a> {
 		match &r {
 			Ok(s3) => {
 				self.emit(wi, "S3", s3);
+				// the step from the slate handed in to the slate handed back must not isolate a key either
+				let known: Vec<grin_util::secp::key::PublicKey> = f.s1.iter().chain(f.s2.iter()).flat_map(|s| s.participant_data.iter().map(|p| p.public_blind_excess)).collect();
+				self.check_offset_leak_with(wi, if f.kind == Kind::Invoice { "I3" } else { "S3" }, s3, Some(&s2.offset), &known);
 				if !repeat {
 					self.flights[fi].s3 = Some(s3.clone());
 					self.flights[fi].finalized = true;
